@@ -111,6 +111,10 @@ func (self *StreamDecoder) Decode(val interface{}) (err error) {
 
 		self.scanned += int64(self.scanp)
 		self.scanp = 0
+	} else if self.err == nil {
+		// More() stopped at a stray ']' or '}': report it rather than
+		// returning success without consuming any input.
+		self.setErr(SyntaxError{self.scanp, string(self.buf), types.ERR_INVALID_CHAR, ""})
 	}
 
 	return self.err
